@@ -4,6 +4,7 @@ package server
 
 import (
 	"bytes"
+	"encoding/binary"
 	"fmt"
 	"github.com/cbeuw/Cloak/internal/common"
 	"github.com/cbeuw/Cloak/internal/vrt/sync"
@@ -76,6 +77,23 @@ func redirInputs(family string, hello, helloBadUID, helloBadMethod []byte) []red
 			// a changed declared record length makes the record incomplete or over-long
 			complete := pos != 3 // a changed declared record length leaves the record incomplete
 			in = append(in, redirInput{name: fmt.Sprintf("cloak-hello-bitflip-byte%d", pos), data: m, complete: complete})
+		}
+		// a browser hello whose extensions declare inconsistent inner lengths (the record and handshake framing
+		// stay intact): server_name list / name lengths, and the first length field of every other extension
+		if i := bytes.Index(rnd, []byte("example.com")); i > 9 {
+			for _, f := range []struct {
+				name string
+				at   int
+			}{{"sni-name-len", i - 2}, {"sni-list-len", i - 5}, {"sni-ext-len", i - 7}} {
+				for _, v := range []uint16{0, 1, uint16(len("example.com")) + 1, uint16(len("example.com")) - 1, 0x0100, 0xffff} {
+					m := append([]byte{}, rnd...)
+					binary.BigEndian.PutUint16(m[f.at:], v)
+					in = append(in, redirInput{name: fmt.Sprintf("browser-hello-%s-%d", f.name, v), data: m, complete: true})
+				}
+			}
+			m := append([]byte{}, rnd...)
+			m[i-3] = 0x07 // name type other than host_name
+			in = append(in, redirInput{name: "browser-hello-sni-name-type-7", data: m, complete: true})
 		}
 		in = append(in, redirInput{name: "cloak-hello-replayed", data: hello, complete: true, replayed: true})
 		in = append(in, redirInput{name: "cloak-hello-unauthorised-uid", data: helloBadUID, complete: true})
